@@ -9,9 +9,12 @@
    constraints c:  p<name>=<value>   t<n>   r<value>   b<value> (will_return_by_value of a struct holding the value;
                    the functions in BYVAL are given all their return values that way and the call reads the struct
                    the mock hands back and frees it)   s<g> (with_side_effect: the callback calls mocked function g with p0=1, p1=1)
+                   o<value> (will_set_contents_of_output_parameter(out, &value, sizeof(long)): every call passes the address of
+                   one cell as its last argument, named out; the cell is reset before each operation and shown after it)
 
    Output per case: for each op "results/ret/queue" joined by ';' where
      results = <line>:<0|1> ... (line 0 = the test's own line), queue = f:line:ttl:ncalled:ntrig ...
+   then '|' and the value of the out cell after each op, comma-separated (-1 = untouched)
 */
 #define _GNU_SOURCE
 #include <cgreen/cgreen.h>
@@ -49,9 +52,11 @@ struct byvalue { long magic; long v; };
 #define BYVAL(fi) ((fi) == 1 || (fi) == 3)
 
 static TestReporter *the_reporter;
+static long out_cell; static long ovals[256]; static int novals;
+static long cells[4096]; static int ncells;
 static void nested_call(void *data) {
     int g = (int)(intptr_t)data;
-    (void)mock_(the_reporter, fnames[g], "mockvm.c", 9998, "p0, p1", (intptr_t)1, (intptr_t)1);
+    (void)mock_(the_reporter, fnames[g], "mockvm.c", 9998, "p0, p1, out", (intptr_t)1, (intptr_t)1, (intptr_t)&out_cell);
 }
 
 static CgreenTest fake = { 0, NULL, "fake", NULL, "test.c", 0 };
@@ -64,7 +69,7 @@ int main(void) {
     current_test = &fake;
     char *line = NULL; size_t cap = 0;
     while (getline(&line, &cap, stdin) > 0) {
-        outn = 0; out[0] = 0;
+        outn = 0; out[0] = 0; novals = 0; ncells = 0;
         clear_mocks();
         cgreen_mocks_are(strict_mocks);
         char *save1;
@@ -74,6 +79,7 @@ int main(void) {
             if (nt == 0) continue;
             intptr_t ret = 0;
             char k = tok[0][0];
+            out_cell = -1;
             if (k == 'E' || k == 'A' || k == 'N') {
                 const char *f = fnames[atoi(tok[1])]; int ln = atoi(tok[2]);
                 Constraint *cs[12]; int nc = 0;
@@ -89,6 +95,11 @@ int main(void) {
                         struct byvalue bv = { 0x5eed, atoll(tok[i] + 1) };
                         cs[nc++] = create_return_by_value_constraint((intptr_t)&bv, sizeof bv);
                     }
+                    else if (tok[i][0] == 'o') {
+                        long *slot = &ovals[novals++ % 256];
+                        *slot = atol(tok[i] + 1);
+                        cs[nc++] = create_set_parameter_value_constraint("out", (intptr_t)slot, sizeof(long));
+                    }
                     else if (tok[i][0] == 's') cs[nc++] = create_with_side_effect_constraint(nested_call, (void *)(intptr_t)atoi(tok[i] + 1));
                 }
                 for (int i = nc; i < 12; i++) cs[i] = NULL;
@@ -98,7 +109,7 @@ int main(void) {
                 else never_expect_(rep, f, "mockvm.c", ln, ARGS);
             } else if (k == 'C') {
                 const char *f = fnames[atoi(tok[1])];
-                char names[200] = ""; intptr_t v[6] = {0}; int na = 0;
+                char names[200] = ""; intptr_t v[7] = {0}; int na = 0;
                 if (nt > 2) {
                     char *save3;
                     for (char *a = strtok_r(tok[2], ",", &save3); a && na < 6; a = strtok_r(NULL, ",", &save3)) {
@@ -109,7 +120,10 @@ int main(void) {
                         v[na++] = (intptr_t)atoll(eq + 1);
                     }
                 }
-                ret = mock_(rep, f, "mockvm.c", 9999, names, v[0], v[1], v[2], v[3], v[4], v[5]);
+                if (na) strcat(names, ", ");
+                strcat(names, "out");
+                v[na] = (intptr_t)&out_cell;
+                ret = mock_(rep, f, "mockvm.c", 9999, names, v[0], v[1], v[2], v[3], v[4], v[5], v[6]);
                 if (BYVAL(atoi(tok[1])) && ret != 0) {       /* the struct comes back as a copy the caller owns */
                     struct byvalue *bv = (struct byvalue *)ret;
                     ret = bv->magic == 0x5eed ? (intptr_t)bv->v : (intptr_t)-424242;
@@ -122,10 +136,13 @@ int main(void) {
             } else if (k == 'X') {
                 clear_mocks();
             }
+            if (ncells < 4096) cells[ncells++] = out_cell;
             put("/%ld/", (long)ret);
             cgreen_verif_walk_expectations(visit);
             put(";");
         }
+        put("|");
+        for (int i = 0; i < ncells; i++) put(i ? ",%ld" : "%ld", cells[i]);
         fputs(out, stdout); fputc('\n', stdout);
         fflush(stdout);
     }
